@@ -39,6 +39,19 @@ func (n *LocalNode) hash(nodes []chord.VNode) uint64 {
 	return hasher.Sum64()
 }
 
+// untilSelf cuts a successor list learned from another node after our own entry. In a ring
+// with no more members than the list is long, the list wraps around: whatever follows
+// ourselves is a second lap that no node refreshes anymore, so a departed node would
+// otherwise be passed around forever.
+func (n *LocalNode) untilSelf(nodes []chord.VNode) []chord.VNode {
+	for i, node := range nodes {
+		if node != nil && node.ID() == n.ID() {
+			return nodes[:i+1]
+		}
+	}
+	return nodes
+}
+
 // routine based on pseudo code from the paper "How to Make Chord Correct"
 func (n *LocalNode) stabilize() error {
 	succList := n.getSuccessors()
@@ -52,13 +65,13 @@ func (n *LocalNode) stabilize() error {
 		newSucc, spErr := head.GetPredecessor()
 		newSuccList, nsErr := head.GetSuccessors()
 		if spErr == nil && nsErr == nil {
-			succList = chord.MakeSuccListByID(head, newSuccList, chord.ExtendedSuccessorEntries)
+			succList = chord.MakeSuccListByID(head, n.untilSelf(newSuccList), chord.ExtendedSuccessorEntries)
 			modified = true
 
 			if newSucc != nil && chord.Between(n.ID(), newSucc.ID(), head.ID(), false) {
 				newSuccList, nsErr = newSucc.GetSuccessors()
 				if nsErr == nil {
-					succList = chord.MakeSuccListByID(newSucc, newSuccList, chord.ExtendedSuccessorEntries)
+					succList = chord.MakeSuccListByID(newSucc, n.untilSelf(newSuccList), chord.ExtendedSuccessorEntries)
 					modified = true
 				}
 			}
